@@ -87,6 +87,7 @@ PROGRAMS = [
                                                         ' .byte "a;b", 3 ; \'x\' "y"\n nop\n'}, ()),
     ('enumeration keys differing in case', {'main.asm': ' sel z\n sel Z\n sel zed\n sel ZED\n sel Nz\n sel nZ\n nop\n'}, ()),
     ('nested conditionals', {'main.asm': '#ifdef S1\n ld a, 1\n#ifdef NOPE\n ld b, 2\n#endif\n ld x, 3\n#else\n nop\n#endif\n#ifndef S1\n#else\n#if KC == 3\n ldx foo\n#else\n ldx bar\n#endif\ntail: ld y, 4\n#endif\n jmp tail\n'}, ()),
+    ('text outside ASCII', {'main.asm': ' nop ; waits 10 \u00b5s\nmsg: .cstr "caf\u00e9"\n#include "u8.asm"\n ld a, 1\n', 'd1/u8.asm': ' .byte 7 ; \u00fcber\n'}, ('d1',)),
     ('several -D', {'main.asm': ' .byte LA, LB, LC\n#if LC >= 1\n nop\n#endif\n'}, ()),
     ('one name in several -D', {'main.asm': ' .byte LV\n#if LV >= 2\n nop\n#endif\n'}, ()),
 ]
@@ -99,12 +100,12 @@ FORMATS_B = ['listing', 'hex', 'intel_hex', 'minhex']
 def meta(tier):
     q = tier == 'quick'
     return {
-        'rule': 'part A: 16 programs (nested conditional blocks; enumeration keys that differ only in letter case; several include directories with unique, ambiguous, shadowing, nested, linked and missing files; registers; '
+        'rule': 'part A: 17 programs (text outside ASCII in comments and strings; nested conditional blocks; enumeration keys that differ only in letter case; several include directories with unique, ambiguous, shadowing, nested, linked and missing files; registers; '
                 'mnemonics that are prefixes of one another or contain a period; macros; symbols; zones; several -D definitions, also of one name; directives whose size or target is computed from labels of another zone) x 2 output formats; the default '
                 'schedule and every schedule with one (thorough: two) deviating choice point (all permutations for sets of <=4 elements, '
                 'reversal and every rotation above) must produce identical status, image and pretty print; the default schedule is '
                 'replayed twice. Part B: the same programs x 4 formats through the real CLI for hash seeds 0..3 (thorough 0..15) x 2 (thorough 3) '
-                'working directories x every permutation of the include directories x {bare, cluttered, optimized (PYTHONOPTIMIZE=2, PYTHONUTF8=1)} environment, and every combination of spellings of the include '
+                'working directories x every permutation of the include directories x {bare, cluttered, optimized (PYTHONOPTIMIZE=2, PYTHONUTF8=1), c-locale (LC_ALL=C)} environment, and every combination of spellings of the include '
                 'directories (relative, ./, through a detour, the same directory twice under two spellings); '
                 'plus an include directory spelled ~/inc under three values of HOME; plus the pretty print on standard output (pipe vs pseudo-terminal vs file) for a program with terminal control sequences in comments and strings; plus the repository\'s example programs under their own definitions (quick: the small ones) x formats x hash seeds with rotating environment and working directory; non-trivial = execution whose schedule or environment differs from the reference execution; '
                 'states = distinct (program, format, number of choice points); transitions = executions',
@@ -184,7 +185,9 @@ BARE = {'PATH': '/usr/bin:/bin', 'HOME': '/nonexistent', 'LANG': 'C'}
 CLUTTER = dict(os.environ, LC_ALL='C.UTF-8', FOO_BAR='1', PYTHONUNBUFFERED='1', COLUMNS='40', TZ='Pacific/Kiritimati')
 # interpreter switches that come from the environment: assertions and docstrings stripped, UTF-8 mode, no user site
 OPTIMIZED = dict(BARE, PYTHONOPTIMIZE='2', PYTHONUTF8='1', PYTHONNOUSERSITE='1', LANG='POSIX')
-ENVS = {'bare': BARE, 'cluttered': CLUTTER, 'optimized': OPTIMIZED}
+# the C / POSIX locale forced through LC_ALL (source files are read the same way whatever the locale says)
+CLOCALE = dict(BARE, LC_ALL='C', LANG='C.UTF-8')
+ENVS = {'bare': BARE, 'cluttered': CLUTTER, 'optimized': OPTIMIZED, 'c-locale': CLOCALE}
 
 
 def shard(acc, tier, idx, n):
@@ -203,11 +206,11 @@ def shard(acc, tier, idx, n):
         for fmt in formats_b:
             ref_case = Case(ISA, files, incdirs=incdirs, pretty=fmt, defines=DEFINES.get(name, ()))
             ref = None
-            for seed, cwd, perm, envname in itertools.product(seeds, cwds, perms, ('bare', 'cluttered', 'optimized')):
+            for seed, cwd, perm, envname in itertools.product(seeds, cwds, perms, ('bare', 'cluttered', 'optimized', 'c-locale')):
                 ctr += 1
                 if ctr % n != idx:
                     continue
-                if (seed + len(str(cwd)) + perms.index(perm)) % 3 != {'bare': 0, 'cluttered': 0, 'optimized': 1}[envname] and envname != 'bare':
+                if (seed + len(str(cwd)) + perms.index(perm)) % 3 != {'bare': 0, 'cluttered': 0, 'optimized': 1, 'c-locale': 2}[envname] and envname != 'bare':
                     continue        # cluttered / optimized environment on a third of the grid each
                 if ref is None:
                     ref = world.run_cli(ref_case, env_extra={'PYTHONHASHSEED': '0'}, env_base=BARE)
@@ -287,7 +290,7 @@ def corpus_end_to_end(acc, idx, n, q):
             ref = world.run_cli(ref_case, env_extra={'PYTHONHASHSEED': '0'}, env_base=BARE)
             acc.count_eval(1, ref.status)
             for k, seed in enumerate(seeds):
-                envname = ('bare', 'cluttered', 'optimized')[(k + ctr) % 3]
+                envname = ('bare', 'cluttered', 'optimized', 'c-locale')[(k + ctr) % 4]
                 cwd = ('<work>', '/', '<root>')[(k + ctr // 3) % 3]
                 out = world.run_cli(ref_case, env_extra={'PYTHONHASHSEED': str(seed)}, cwd=cwd, env_base=ENVS[envname])
                 acc.count_eval(1, out.status)
